@@ -44,6 +44,15 @@ func (s *c06) Build(w *World) {
 	s.dag = GenDAG(t, GenCfg{MaxBlocks: 3 + t.Draw(16), MaxDepth: 2 + t.Draw(4), BlockPad: []int{0, 0, 40}[t.Draw(3)], Share: []int{0, 100, 300}[t.Draw(3)]})
 	s.sel, s.selDesc = GenSelector(t, 8)
 	s.split = GenSplit(t, s.dag)
+	if t.Chance(300) {
+		// swarm: a responder with holes (blocks neither side has), so that pauses land on missing links
+		for _, c := range s.dag.Order {
+			if !c.Equals(s.dag.Root.Cid) && t.Chance(300) {
+				delete(s.split.Rs, c)
+				delete(s.split.Rq, c)
+			}
+		}
+	}
 	cfg := NodeCfg{GateReads: true, GateCommits: true}
 	s.a = NewNode(w, "A", cfg)
 	s.b = NewNode(w, "B", cfg)
